@@ -7,6 +7,7 @@ package tfx
 import (
 	"context"
 	"fmt"
+	"reflect"
 	"time"
 
 	"github.com/hashicorp/terraform-plugin-framework/attr"
@@ -268,5 +269,20 @@ func HookCopyFrom(suffix string, diags diag.Diagnostics, v attr.Value, fieldPtr 
 func HookCopyTo(suffix string, diags diag.Diagnostics, fieldValue interface{}, t attr.Type, cur attr.Value) attr.Value {
 	Log = append(Log, Call{"CopyTo", suffix, []interface{}{diags, fieldValue, t, cur}})
 	Serial++
-	return SentinelValue{Suffix: suffix, Payload: fmt.Sprintf("%v", fieldValue), Serial: Serial}
+	return SentinelValue{Suffix: suffix, Payload: render(fieldValue), Serial: Serial}
+}
+
+// render prints a Go field value without addresses (pointers are followed).
+func render(v interface{}) string {
+	rv := reflect.ValueOf(v)
+	for rv.IsValid() && rv.Kind() == reflect.Ptr {
+		if rv.IsNil() {
+			return "<nil>"
+		}
+		rv = rv.Elem()
+	}
+	if !rv.IsValid() {
+		return "<nil>"
+	}
+	return fmt.Sprintf("%v", rv.Interface())
 }
